@@ -1,23 +1,78 @@
-(** C49 property theorems (Team with in-memory workers): for every limit, every schedule of client calls,
-    coordinator steps and worker steps, and every resolution of set.pop().
+(** C49 property theorems (Team with in-memory workers): for every limit [lim], every schedule [ls] of client
+    calls (do / grow / shrink / quit / limit change), coordinator steps and worker steps, and every resolution
+    of set.pop() (the choice lists inside [Coord]).  A task is (id, raises).
 
-    Proved here: the worker-limit guard and the quit/refusal half of the property.  NOT proved in Coq
-    (checked on every run by the oracle of harness/c49.py on the real Team, see design.d/C49.md):
-      each_task_runs_once_unless_no_worker_ever  (full statement: for every schedule, the multiset of accepted
-        tasks = tasks that ran ++ tasks still queued (coordinator queue, backlog, worker queues), so no task
-        runs twice or is lost, and at quiescence a task is left only when no worker is idle or busy),
-      no_worker_runs_two_tasks, after_quit_all_workers_stop. *)
+    Notions (coq/C49/Inv.v, Acct.v, Quit.v, Final.v):
+      all_events log            the ghost log of the run, flattened
+      acc_ev t0 / ran_ev t0     1 on "do(t0) accepted" / "t0's body ran on some worker", else 0
+      cnt t0 s                  copies of t0 in flight in s: coordinator queue + backlog + worker queues
+      runs q, stops q, cid w q  WRun / WStop entries of a worker queue; CIdle w jobs (= finished, not yet
+                                acknowledged tasks of w) on the coordinator queue
+      quiescent s               nothing left to perform (every Coord / Work step is a no-op)          *)
 From Coq Require Import List Arith Bool.
-From C49 Require Import Model Proofs.
+From C49 Require Import Model Proofs Inv Acct Quit Final.
 Import ListNotations.
 
-(** workers are created only while fewer than the limit exist: every creation event of every run was made
-    with idle + busy < limit at that moment (the limit may change during the run) *)
+(** every task submitted before quit runs exactly once, unless no worker could ever be created.
+    (1) At every point of every run: acceptances of t0 = runs of t0 + copies still in flight -- none lost,
+        none invented, and a task accepted once has run at most once.
+    (2) At quiescence the only copies in flight are in the backlog (so a task accepted once and not in the
+        backlog has run exactly once), and
+    (3) tasks are left in the backlog only if no worker at all is idle or busy.  By
+        [workers_not_released_while_tasks_wait] and [workers_created_only_below_limit] that means: none existed when
+        the task was backlogged (limit <= 0 live workers) and none has been created since. *)
+Theorem each_task_runs_once_unless_no_worker_ever : forall lim ls t0,
+  let r := run (init lim) ls in
+  let log := all_events (snd r) in
+  total (acc_ev t0) log = total (ran_ev t0) log + cnt t0 (fst r)
+  /\ (quiescent (fst r) ->
+        cnt t0 (fst r) = count (is_t t0) (pending (fst r))
+        /\ (pending (fst r) <> [] -> idle (fst r) = [] /\ busy (fst r) = 0)).
+Proof. exact each_task_lemma. Qed.
+Print Assumptions each_task_runs_once_unless_no_worker_ever.
+
+(** while tasks wait in the backlog no worker is idle, and no step of any kind releases a worker:
+    _busyCount never decreases until the backlog is empty *)
+Theorem workers_not_released_while_tasks_wait : forall lim ls l,
+  let s := fst (run (init lim) ls) in
+  pending s <> [] -> idle s = [] /\ busy s <= busy (fst (step s l)).
+Proof. exact not_released_lemma. Qed.
+Print Assumptions workers_not_released_while_tasks_wait.
+
+(** workers are created only while fewer than the limit exist, and a task is put in the backlog only when the
+    limit is reached (the limit may change during the run) *)
 Theorem workers_created_only_below_limit : forall lim ls,
-  Forall (Forall (fun e => match e with ECreate _ live limit_now => live < limit_now | _ => True end))
+  Forall (Forall (fun e => match e with ECreate _ live limit_now => live < limit_now
+                          | EBacklog _ live limit_now => limit_now <= live | _ => True end))
          (snd (run (init lim) ls)).
 Proof. intros lim ls. exact (run_events_ok ls (init lim)). Qed.
 Print Assumptions workers_created_only_below_limit.
+
+(** no worker runs two tasks at once: at every point each worker has at most one task outstanding (queued on it,
+    or finished and not yet acknowledged by the coordinator), an idle worker has none, a stopped worker has none,
+    and _busyCount is exactly the number of workers with a task outstanding *)
+Theorem no_worker_runs_two_tasks : forall lim ls w,
+  let s := fst (run (init lim) ls) in
+  runs (wq s w) + cid w (coordq s) <= 1
+  /\ (mem w (idle s) = true -> runs (wq s w) + cid w (coordq s) = 0 /\ stops (wq s w) = 0)
+  /\ (1 <= stops (wq s w) -> runs (wq s w) + cid w (coordq s) = 0)
+  /\ busy s = sumw (nworkers s) (fun x => runs (wq s x) + cid x (coordq s)).
+Proof. exact one_task_lemma. Qed.
+Print Assumptions no_worker_runs_two_tasks.
+
+(** after quit, once outstanding work has been performed, every worker is stopped and so is the coordinator *)
+Theorem after_quit_all_workers_stop : forall lim ls,
+  let s := fst (run (init lim) ls) in
+  tquit s = true -> quiescent s ->
+  coord_done s = true /\ idle s = [] /\ busy s = 0 /\ forall w, w < nworkers s -> wq s w = [WStop].
+Proof. intros lim ls s Ht Hq. apply after_quit; [apply run_all, init_all | exact Ht | exact Hq]. Qed.
+Print Assumptions after_quit_all_workers_stop.
+
+(** [quiescent] is exactly "every performer step does nothing" *)
+Theorem quiescent_is_nothing_left_to_perform : forall s,
+  quiescent s <-> (forall ch, snd (step s (Coord ch)) = [ENothing]) /\ (forall w, snd (step s (Work w)) = [ENothing]).
+Proof. exact quiescent_operational. Qed.
+Print Assumptions quiescent_is_nothing_left_to_perform.
 
 (** once quit() has been accepted the flag stays set whatever runs afterwards ... *)
 Theorem quit_is_permanent : forall s ls, tquit s = true -> tquit (fst (run s ls)) = true.
@@ -26,12 +81,11 @@ Print Assumptions quit_is_permanent.
 
 (** ... quit() sets it ... *)
 Theorem quit_accepted_once : forall s,
-  tquit s = false -> tquit (fst (step s Quit)) = true /\ snd (step s Quit) = [EAccepted].
+  tquit s = false -> tquit (fst (step s Quit)) = true /\ snd (step s Quit) = [EAccepted CQuit].
 Proof. exact quit_sets_flag. Qed.
 Print Assumptions quit_accepted_once.
 
-(** ... and from then on every do / grow / shrink / quit is refused (AlreadyQuit) and changes nothing:
-    after any schedule [a] containing an accepted quit, and any further schedule [b] *)
+(** ... and from then on every do / grow / shrink / quit is refused (AlreadyQuit) and changes nothing *)
 Theorem submissions_after_quit_refused : forall s ls l,
   tquit s = true -> is_client l = true ->
   step (fst (run s ls)) l = (fst (run s ls), [ERefused]).
